@@ -90,6 +90,7 @@ def run(ctx: Ctx) -> None:
                               "a decoded exchange instruction has assembler-side IMemOperand operands: its encode() would recompute the prefix", isa.INSTR_PY)
     ctx.instance("C02.3/exchange-override", "decoded exchange instructions never carry IMemOperand operands", n, 30)
     guard(ctx, py)
+    fusion_shape(ctx, py)
     ctx.extra["exhaustive"] = True
     ctx.extra["rejected_cases"] = dict(collections.Counter(c.status for c in base if c.status != "ok"))
 
@@ -159,3 +160,60 @@ def guard(ctx: Ctx, py: PyProgram) -> None:
     for ln, what in memo_findings(py.module(isa.ARCH_PY), fn, ("data", "addr")):
         ctx.violation("C02.2/memo", key_of(isa.ARCH_PY, "SC62015.get_instruction_text", "decoded instruction remembered across calls"), what + " - the guard then compares these bytes with the re-encoding of another instruction", f"{isa.ARCH_PY}:{ln}")
     ctx.instance("C02.2/roundtrip-guard", "text returned only under encoded == recoded on data[:length] vs encode(decoded); decoded not remembered across calls", 3, 3)
+
+
+def fusion_shape(ctx: Ctx, py: PyProgram) -> None:
+    """The decoded instruction is what fusion() yields.  The only way two decoded items may become one is `<acc>.fuse(<next>)` - that
+    is what encode() mirrors (PRE.fuse builds the prefixed instruction whose encode emits the prefix byte).  In fusion(), the
+    accumulated instruction (the first element of every yielded pair) may only be rebound (a) from the input iterator, (b) to the
+    result of a .fuse() call on itself, (c) to the look-ahead item right after the old accumulator was yielded.  Any other
+    rebinding merges or drops bytes outside fuse(), and the instruction's encode() can no longer reproduce them."""
+    fn = py.func(isa.OPCODES_PY, "fusion")
+    yields = [y for y in ast.walk(fn) if isinstance(y, ast.Yield) and isinstance(y.value, ast.Tuple) and y.value.elts and isinstance(y.value.elts[0], ast.Name)]
+    ctx.need(bool(yields), "fusion(): no `yield <instr>, <addr>` found")
+    acc = {y.value.elts[0].id for y in yields}
+    ctx.need(len(acc) == 1, f"fusion(): yields several different accumulators {sorted(acc)}")
+    acc_name = acc.pop()
+    it_params = {a.arg for a in fn.args.args}
+    n = 0
+
+    def blocks(node: ast.AST):
+        for f_ in ("body", "orelse", "finalbody"):
+            b = getattr(node, f_, None)
+            if isinstance(b, list) and b and isinstance(b[0], ast.stmt):
+                yield b
+        for h in getattr(node, "handlers", []):
+            yield h.body
+    fuse_holders: set[str] = set()
+    for x in ast.walk(fn):
+        if isinstance(x, ast.NamedExpr) and isinstance(x.value, ast.Call) and isinstance(x.value.func, ast.Attribute) and x.value.func.attr == "fuse":
+            fuse_holders.add(x.target.id)
+        if isinstance(x, ast.Assign) and isinstance(x.value, ast.Call) and isinstance(x.value.func, ast.Attribute) and x.value.func.attr == "fuse":
+            fuse_holders |= {t.id for t in x.targets if isinstance(t, ast.Name)}
+    for node in ast.walk(fn):
+        for body in blocks(node):
+            for i, st in enumerate(body):
+                if not isinstance(st, ast.Assign):
+                    continue
+                for t in st.targets:
+                    pairs = []
+                    if isinstance(t, ast.Name) and t.id == acc_name:
+                        pairs.append(st.value)
+                    if isinstance(t, ast.Tuple) and t.elts and isinstance(t.elts[0], ast.Name) and t.elts[0].id == acc_name:
+                        pairs.append(st.value.elts[0] if isinstance(st.value, ast.Tuple) and st.value.elts else st.value)
+                    for v in pairs:
+                        n += 1
+                        if isinstance(v, ast.Call) and isinstance(v.func, ast.Name) and v.func.id == "next" and v.args and isinstance(v.args[0], ast.Name) and v.args[0].id in it_params:
+                            continue
+                        if isinstance(v, ast.Name) and v.id in fuse_holders:
+                            continue
+                        if isinstance(v, ast.Call) and isinstance(v.func, ast.Attribute) and v.func.attr == "fuse":
+                            continue
+                        prev = body[i - 1] if i > 0 else None
+                        if isinstance(v, ast.Name) and isinstance(prev, ast.Expr) and isinstance(prev.value, ast.Yield) and isinstance(prev.value.value, ast.Tuple) \
+                                and isinstance(prev.value.value.elts[0], ast.Name) and prev.value.value.elts[0].id == acc_name:
+                            continue
+                        ctx.violation("C02.2/fusion-shape", key_of(isa.OPCODES_PY, "fusion", "accumulated instruction rebound outside fuse()"),
+                                      f"fusion() rebinds the instruction it is about to yield with `{unparse(st)[:80]}`: neither the input iterator, nor a .fuse() result, nor the look-ahead item right after "
+                                      "the previous one was yielded - bytes are merged or dropped behind fuse()'s back and encode(decode(b)) cannot reproduce them", f"{isa.OPCODES_PY}:{st.lineno}")
+    ctx.instance("C02.2/fusion-shape", "rebindings of the accumulated instruction in fusion(): iterator / fuse() result / look-ahead after yield", n, 3)
